@@ -87,6 +87,7 @@ impl State {
 //@use state.fns State::pop_data assumed
 //@use state.fns State::get_var assumed
 //@use state.fns State::set_var assumed
+//@use state.fns State::update_var assumed
 }
 
 //@use cursor.fns ::current_input
@@ -238,6 +239,20 @@ proof fn lemma_vec_bits_none(v: Xvec, k: int, n: int)
 //@use cursor.fns ::into_bitstr
 //@use cursor.fns ::word_into_bitstr
 
+// ---- emit
+impl CellRef {
+    // `self != &Self::default()`, Default = CellRef(usize::MAX) (derived PartialEq; ASSUMED)
+    #[verifier::external_body] pub(crate) fn is_initialized(&self) -> (r: bool) ensures r == (self.0 != usize::MAX) { unimplemented!() }
+}
+impl Bitstr {
+    // byte export as a Cow (verified as to_bytes / to_bytes_with_padding in unit bitstr; here only when it exists)
+    #[verifier::external_body] pub fn bytestr<'a>(&'a self) -> (r: Option<std::borrow::Cow<'a, [u8]>>)
+        ensures r is Some <==> self.view().len() % 8 == 0 { unimplemented!() }
+}
+// Rext: crate::file::write_to_stdout (I/O): some result, the interpreter state is not an argument
+#[verifier::external_body] fn verif_write_stdout(buf: &std::borrow::Cow<'_, [u8]>) -> Xresult { unimplemented!() }
+//@use cursor.fns ::word_emit
+
 // the data words of the word table (Rword)
 //@use words.fns ::load#w_u8
 //@use words.fns ::load#w_u8_bang
@@ -350,6 +365,7 @@ impl vstd::std_specs::cmp::PartialEqSpecImpl for Cell {
     open spec fn eq_spec(&self, other: &Self) -> bool { cell_eq_u(*self, *other) }
 }
 impl PartialEq for Cell { #[verifier::external_body] fn eq(&self, other: &Self) -> (r: bool) ensures r == cell_eq_u(*self, *other) { unimplemented!() } }
+#[verifier::external_body] proof fn axiom_cell_eq_nil(a: Cell) ensures cell_eq_u(a, Cell::Nil) == (strip(a) is Nil) {}
 #[verifier::external_body] proof fn axiom_cell_eq_int(a: Cell, k: i128) ensures cell_eq_u(a, Cell::Int(k)) == (strip(a) == Cell::Int(k)) {}
 // R3k: the tag key constant OFFSET_LIT (a string literal cell)
 #[verifier::external_body] fn verif_offset_lit() -> (r: Cell) ensures r == offset_lit() { unimplemented!() }
